@@ -80,6 +80,41 @@ fn run(out: &mut impl Write, s: &str, rng: &mut Rng) {
         if b > a {
             ops.push(format!("sliceincl:{}:{}:{}", a, b - 1, hex_cps(&content_of(owned.slice(a..=b - 1)).1)));
         }
+        // every spelling of the range a..b as a pair of bounds, through each of the four slice functions
+        use std::ops::Bound::{self, Excluded, Included, Unbounded};
+        let mut los: Vec<(String, Bound<usize>)> = vec![(format!("i{a}"), Included(a))];
+        if a > 0 {
+            los.push((format!("e{}", a - 1), Excluded(a - 1)));
+        } else {
+            los.push(("u".into(), Unbounded));
+        }
+        let mut his: Vec<(String, Bound<usize>)> = vec![(format!("e{b}"), Excluded(b))];
+        if b > 0 {
+            his.push((format!("i{}", b - 1), Included(b - 1)));
+        }
+        if b == n {
+            his.push(("u".into(), Unbounded));
+        }
+        let to32 = |x: &Bound<usize>| -> Bound<u32> {
+            match x {
+                Included(v) => Included(*v as u32),
+                Excluded(v) => Excluded(*v as u32),
+                Unbounded => Unbounded,
+            }
+        };
+        for (ln, lo) in &los {
+            for (hn, hi) in &his {
+                let r = [
+                    content_of(v.slice((*lo, *hi))),
+                    content_of(v.slice_u32((to32(lo), to32(hi)))),
+                    content_of(owned.slice((*lo, *hi))),
+                    content_of(owned.slice_u32((to32(lo), to32(hi)))),
+                ];
+                for (fi, (vv, c)) in r.iter().enumerate() {
+                    ops.push(format!("sl:{}:{}:{}:{}:{}", fi, ln, hn, vv, hex_cps(c)));
+                }
+            }
+        }
     }
     ops.push(format!("slicefull:{}", hex_cps(&content_of(v.slice(..)).1)));
     writeln!(
